@@ -72,6 +72,25 @@ def _trend(B, degree, fitted=True):
     return est
 
 
+def _jac_kind(a):
+    from pyvc.arr import parse_dtype
+
+    d = getattr(a, "dtype", "float64")
+    try:
+        k = parse_dtype(d).kind
+    except Exception:
+        import numpy as _np
+
+        k = {"f": "f", "i": "i", "u": "i", "b": "i"}.get(_np.dtype(d).kind, "f")
+    return "i" if k in ("i", "b") else "f"
+
+
+def _as_kind(v, kind):
+    from pyvc.arr import cast_value
+
+    return cast_value(v, kind) if kind == "i" else v
+
+
 @register
 class TrendJacobian(Contract):
     functional = True
@@ -101,8 +120,9 @@ class TrendJacobian(Contract):
         combos = monomials(a.self.degree)
         from .blocks_c08 import _pick
 
-        cols = [(lambda p, i=i, j=j: vpow(e.at(p), i) * vpow(n.at(p), j)) for (i, j) in combos]
-        return new_array((e.shape[0], len(combos)), lambda idx: _pick(cols, idx[1])(idx[0]), "f")
+        kind = _jac_kind(a)
+        cols = [(lambda p, i=i, j=j: _as_kind(vpow(e.at(p), i) * vpow(n.at(p), j), kind)) for (i, j) in combos]
+        return new_array((e.shape[0], len(combos)), lambda idx: _pick(cols, idx[1])(idx[0]), kind)
 
     def samples(self, rng, nrng, tier):
         import verde
@@ -121,8 +141,9 @@ class TrendJacobian(Contract):
         if not ok:
             return out
         out["shape_is_points_by_(N+1)(N+2)/2"] = and_(r.shape[0] == e.shape[0], r.shape[1] == len(combos))
+        kind = _jac_kind(a)  # the public `dtype` argument: an integer dtype stores the monomials truncated
         for c, (i, j) in enumerate(combos):
-            out["column_%d_is_e^%d_n^%d" % (c, i, j)] = Forall((e.shape[0],), lambda p, c=c, i=i, j=j: close(r.at(p, c), vpow(e.at(p), i) * vpow(n.at(p), j), 64.0))
+            out["column_%d_is_e^%d_n^%d" % (c, i, j)] = Forall((e.shape[0],), lambda p, c=c, i=i, j=j: close(r.at(p, c), _as_kind(vpow(e.at(p), i) * vpow(n.at(p), j), kind), 64.0))
         return out
 
 
